@@ -160,6 +160,7 @@ type (
 	validatorDelWithdrawChange struct {
 		address *common.Address
 		prev    *WithdrawRecord
+		pos     int // position of prev in the queue before it was removed
 	}
 )
 
@@ -207,6 +208,11 @@ func (ch validatorAddUBDChange) dirtied() *common.Address {
 func (ch validatorDelWithdrawChange) revert(s *StateDB) {
 	if queue, err := s.getWithdrawQueue(); err == nil && queue != nil {
 		queue.Add(ch.prev)
+		if ch.pos >= 0 && ch.pos < queue.Len()-1 {
+			// move it back to where it was; the order of the queue is part of the state
+			copy(queue.Records[ch.pos+1:], queue.Records[ch.pos:queue.Len()-1])
+			queue.Records[ch.pos] = ch.prev
+		}
 	}
 }
 
